@@ -179,6 +179,7 @@ CONSTANTS
   Keys = {%s}
   WithList = %s
   WithInserts = %s
+  WithHist = %s
 INVARIANTS %s LocalEffect Convergence
 %sCHECK_DEADLOCK FALSE
 """
@@ -192,12 +193,15 @@ def gen_doc(run, variants):
         reps, depth, withlist, num = var[:4]
         inserts = var[4] if len(var) > 4 else True
         keys = var[5] if len(var) > 5 else '"k1"'
+        whist = var[6] if len(var) > 6 else False
         # num = 0: exhaustive search with transition coverage (one behaviour per (state, incoming
         # transition) pair); otherwise random simulation of num traces
-        exh = num == 0
+        exh = num <= 0
+        view = "StateView" if num < 0 else "TransitionView"
         cfg = GEN_DOC_CFG % (reps, depth, keys, "TRUE" if withlist else "FALSE",
-                             "TRUE" if inserts else "FALSE", "EmitAll" if exh else "Emit",
-                             "VIEW TransitionView\n" if exh else "")
+                             "TRUE" if inserts else "FALSE", "TRUE" if whist else "FALSE",
+                             "EmitAll" if exh else "Emit",
+                             ("VIEW %s\n" % view) if exh else "")
         behs, r = tlc_behaviours("Doc.tla", cfg, os.path.join(run.work, "gendoc"), {}, num, depth + 1,
                                  run.seed + vi, exhaustive=exh, workers=4 if exh else 1)
         if exh:
@@ -213,11 +217,11 @@ def gen_doc(run, variants):
         run.cov["evaluations"] += res["steps"]
         for b in set(behs):
             bj = json.loads(b)
-            if any(len(reg.get("vals", [])) > 1 for st in bj for o in st["exp"]
+            if any(len(reg.get("vals", [])) > 1 for st in bj if "exp" in st for o in st["exp"]
                    for reg in list(o.get("ents", [])) + list(o.get("elems", []))):
                 run.nontrivial("beh:" + digest_of(b))
         if behs:
-            run.sample({"gen": "Doc.tla", "behaviour": [{k: v for k, v in st.items() if k != "exp"} for st in json.loads(behs[0])]})
+            run.sample({"gen": "Doc.tla", "behaviour": [{k: v for k, v in st.items() if k not in ("exp", "hreads")} for st in json.loads(behs[0])]})
         for mm in res["mismatches"][:3]:
             obj = {"variant": [reps, depth, withlist], "behaviour": mm["line"], "step": mm["step"],
                    "fields": mm["fields"], "expected": mm["expected"], "got": mm["got"]}
@@ -289,6 +293,27 @@ def c03(run):
     interp_trace(run, ["C03"], "conflict", sizes(run, 100, 2000), has_conflict, spec="Trace_Seq.tla")
 
 
+def has_readat_pair(sc):
+    return any(e.get('ev') == 'readat' and len(e.get('heads', [])) >= 2 for e in sc)
+
+
+def c07(run):
+    run.cov["rule"] = ("conflict-rich histories (counters with concurrent increments, overwritten and deleted values, "
+                       "lists, nested objects, text); for every replica, reads at every single change and at pairs of "
+                       "concurrent changes (up to 12 head sets per replica): the full projection at those heads "
+                       "(get/get_all/keys/length/text per object) must equal OpSet!Interp of the ancestors' ops, and "
+                       "fork_at must give heads = the given heads, changes = exactly the ancestors, and the same view; "
+                       "non-trivial = scenario with a read at >= 2 concurrent heads")
+    # spec -> impl: programs from Doc.tla with the expected view at EVERY antichain of heads
+    if run.tier == "quick":
+        gen_doc(run, [("1, 2", 5, False, -1, True, '"k1"', True), ("1, 2", 4, True, 4, True, '"k1"', True)])
+    else:
+        gen_doc(run, [("1, 2", 6, False, -1, True, '"k1"', True), ("1, 2", 4, True, -1, False, '"k1"', True),
+                      ("1, 2, 3", 5, False, 200, True, '"k1"', True)])
+    interp_trace(run, ["C07"], "hist", sizes(run, 60, 2500), has_readat_pair)
+    interp_trace(run, ["C07"], "histdoc", sizes(run, 40, 1500), has_readat_pair)
+
+
 def replay(run, path):
     """re-validate a recorded violating scenario"""
     from . import tlc_trace
@@ -307,4 +332,5 @@ REG = {
     "C02": ("model_checking", c02),
     "C01": ("model_checking", c01),
     "C03": ("model_checking", c03),
+    "C07": ("model_checking", c07),
 }
